@@ -110,7 +110,33 @@ def param_refusal(ctx, fx, fn, params, rule, summaries=None, delegates=None, dep
     return n
 
 
-def state_refusal(ctx, fn, rule, kind):
+_READS_STATE = {}
+
+
+def _callee_reads_state(fx, fid, depth=0):
+    """does crate-local `fid` (one more level deep) read a length/count/capacity field?"""
+    if fx is None or not fx.has(fid):
+        return False
+    if fid in _READS_STATE:
+        return _READS_STATE[fid]
+    _READS_STATE[fid] = False
+    cf = Fn(fx.raw(fid))
+    res = False
+    for loc, st in cf.iter_locs():
+        if st[0] == "a":
+            for o in rv_operands(st[2]):
+                p = op_place(o)
+                if p and any(isinstance(e, str) and STATE_FIELD.search(e) for e in p[1:]):
+                    res = True
+    if not res and depth < 1:
+        for b, c in cf.calls():
+            if c.get("loc") and (STATE_HELPER.search(c["f"]) or _callee_reads_state(fx, c["f"], depth + 1)):
+                res = True
+    _READS_STATE[fid] = res
+    return res
+
+
+def state_refusal(ctx, fn, rule, kind, fx=None):
     """kind: 'push' or 'pop' (which state test is expected)"""
     effects = [(b, c) for b, c in fn.calls() if EFFECT_RX.search(c["f"])]
     if not effects:
@@ -128,6 +154,10 @@ def state_refusal(ctx, fn, rule, kind):
         for loc, k, pl in sites:
             if k == "call" and STATE_HELPER.search(pl["f"]) and pl["a"] and 1 in fn.backslice([op_local(pl["a"][0]) or 0], max_nodes=20)[0]:
                 desc = pl["f"].rsplit("::", 1)[-1] + "()"
+            elif k == "call" and pl.get("loc") and pl["a"] and _callee_reads_state(fx, pl["f"]) \
+                    and 1 in fn.backslice([op_local(pl["a"][0]) or 0], max_nodes=20)[0]:
+                # a private helper of the container that looks at its length/capacity (len_after_adding, reserve, ...)
+                desc = desc or pl["f"].rsplit("::", 1)[-1] + "() [reads state]"
             elif k == "assign":
                 for o in rv_operands(pl[2]):
                     p = op_place(o)
